@@ -1838,6 +1838,26 @@ def r_nested_fusion_same_red_op(prog: Program, col: Collector, refs: Refs, cat: 
                 cmp_ = any(isinstance(x, ast.Compare) for x in ast.walk(t))
                 return has_inner and has_outer and cmp_
             # the registration pattern may pin both reductions to the same op class
+            # ... and that the two SETS of binders are disjoint: a duplicated subterm keeps its (already mangled) bound names, so an inner
+            # contraction can bind the very variable the outer one binds; the union then collapses two nested reductions into one
+            def disjoint_test(t):
+                for x in ast.walk(t):
+                    if isinstance(x, ast.BinOp) and isinstance(x.op, ast.BitAnd):
+                        sides = [x.left, x.right]
+                    elif isinstance(x, ast.Call) and isinstance(x.func, ast.Attribute) and x.func.attr in ("isdisjoint", "intersection") and x.args:
+                        sides = [x.func.value, x.args[0]]
+                    else:
+                        continue
+                    has_in = any(isinstance(y, ast.Attribute) and y.attr in ("reduced_vars", "bound") and isinstance(y.value, ast.Name) and y.value.id == inner for s_ in sides for y in ast.walk(s_))
+                    has_out = any(isinstance(y, ast.Name) and y.id == V for s_ in sides for y in ast.walk(s_))
+                    if has_in and has_out:
+                        return True
+                return False
+            col.check(any(disjoint_test(t) for t in tests), f"{f.fq}::{norm(v3)} (disjoint binders)",
+                      f"`{inner}.reduced_vars` is tested against `{V}` before the union is taken",
+                      f"`{V} | {inner}.reduced_vars` is formed without testing that the two sets are disjoint: when a subterm is duplicated (r * r is distributed) its copies keep the "
+                      "same bound names, the inner and the outer contraction then bind the same variable, and the union turns two nested reductions into one "
+                      "((sum_i y)**2 becomes sum_i y**2)", f.loc(c))
             col.check(any(relates(t) for t in tests), f"{f.fq}::{norm(v3)}",
                       f"`{inner}.red_op` is compared with `{R}` before the two sets of reduced variables are merged",
                       f"the reduced variables of the inner contraction `{inner}` are merged into the outer reduction without comparing `{inner}.red_op` with `{R}`: when the outer "
